@@ -7,7 +7,7 @@
 //! cells; the operation is applied to the real receiver and to a rows-of-cells model of the
 //! window, and the *whole parent* is compared afterwards.
 
-use crate::elem::Kc;
+use crate::elem::{Cell, Fat, Kc, K1, K20};
 use crate::model::{stable_perm, Model};
 use crate::runner::*;
 use crate::thin::Thin;
@@ -150,8 +150,20 @@ pub enum GOp {
     CellsMutWrite { rev: bool, step: u8, skip: u8 },
 }
 
+#[derive(Serialize, Deserialize, Clone, Copy, Debug, PartialEq, Eq, Default)]
+pub enum CellKind {
+    #[default]
+    Kc,
+    K1,
+    K20,
+    Fat,
+}
+
 #[derive(Serialize, Deserialize, Clone, Debug, PartialEq)]
 pub struct GridCase {
+    /// the cell type (default: the 4-byte key/id pair)
+    #[serde(default)]
+    pub cell: CellKind,
     pub cols: u8,
     pub rows: u8,
     pub recv: Recv,
@@ -190,8 +202,8 @@ fn fresh(i: usize, seed: u32) -> u64 {
 }
 
 /// values of the source of a copy operation (row-major)
-fn src_values(n: usize, seed: u32) -> Vec<Kc> {
-    (0..n).map(|i| kc(fresh(i, seed))).collect()
+fn src_values<K: Cell>(n: usize, seed: u32) -> Vec<K> {
+    (0..n).map(|i| K::make(fresh(i, seed))).collect()
 }
 
 fn src_shape(c: usize, r: usize, dc: i8, dr: i8, transposed: bool) -> (usize, usize) {
@@ -381,7 +393,7 @@ fn expect(w: &Model, op: &GOp, seed: u32) -> Expect {
 
 /// Runs the operation on the real receiver. Err = panic message; Ok(Some(note)) = an in-situ
 /// oracle failure (e.g. row_pair_mut returned the wrong slices).
-fn apply<X: TooDeeOpsMut<Kc> + CopyOps<Kc>>(x: &mut X, op: &GOp, seed: u32) -> Result<Option<String>, String> {
+fn apply<K: Cell, X: TooDeeOpsMut<K> + CopyOps<K>>(x: &mut X, op: &GOp, seed: u32) -> Result<Option<String>, String> {
     let (c, r) = (x.num_cols(), x.num_rows());
     catch(|| -> Option<String> {
         match op {
@@ -402,10 +414,10 @@ fn apply<X: TooDeeOpsMut<Kc> + CopyOps<Kc>>(x: &mut X, op: &GOp, seed: u32) -> R
                 }
                 ra.swap_with_slice(rb);
             }
-            GOp::Fill(k) => x.fill(Kc { key: *k as u16, id: 0xFFFF }),
+            GOp::Fill(k) => x.fill(K::make(((*k as u64) << 16) | 0xFFFF)),
             GOp::CopyFromSlice { delta, clone } => {
                 let n = ((c * r) as i64 + *delta as i64).max(0) as usize;
-                let src = src_values(n, seed);
+                let src = src_values::<K>(n, seed);
                 if *clone {
                     x.clone_from_slice(&src)
                 } else {
@@ -414,7 +426,7 @@ fn apply<X: TooDeeOpsMut<Kc> + CopyOps<Kc>>(x: &mut X, op: &GOp, seed: u32) -> R
             }
             GOp::CopyFromToodee { src, dc, dr, transposed, clone } => {
                 let (sc, sr) = src_shape(c, r, *dc, *dr, *transposed);
-                let vals = src_values(sc * sr, seed);
+                let vals = src_values::<K>(sc * sr, seed);
                 match src {
                     SrcKind::Owned => {
                         let s = TooDee::from_vec(sc, sr, vals);
@@ -428,7 +440,7 @@ fn apply<X: TooDeeOpsMut<Kc> + CopyOps<Kc>>(x: &mut X, op: &GOp, seed: u32) -> R
                         // embed the source in a bigger parent (margins 1,2 / 2,1) unless plain View
                         let (ml, mt, mr_, mb) = if *src == SrcKind::View || sc == 0 { (0, 0, 0, 0) } else { (1, 2, 2, 1) };
                         let (bc, br) = if sc == 0 { (0, 0) } else { (sc + ml + mr_, sr + mt + mb) };
-                        let mut big = TooDee::init(bc, br, Kc { key: 9, id: 0x7777 });
+                        let mut big = TooDee::init(bc, br, K::make((9 << 16) | 0x7777));
                         let mut i = 0;
                         for y in 0..sr {
                             for xx in 0..sc {
@@ -462,31 +474,31 @@ fn apply<X: TooDeeOpsMut<Kc> + CopyOps<Kc>>(x: &mut X, op: &GOp, seed: u32) -> R
                 let l = us(*line);
                 let f = *keyfn;
                 match *form % 11 {
-                    0 => x.sort_by_row(l, |a, b| kf(a.key, f).cmp(&kf(b.key, f))),
-                    1 => x.sort_by_row_key(l, |a| kf(a.key, f)),
+                    0 => x.sort_by_row(l, |a, b| kf(a.key(), f).cmp(&kf(b.key(), f))),
+                    1 => x.sort_by_row_key(l, |a| kf(a.key(), f)),
                     2 => x.sort_row_ord::<()>(l),
-                    3 => x.sort_unstable_by_row(l, |a, b| kf(a.key, f).cmp(&kf(b.key, f))),
-                    4 => x.sort_unstable_by_row_key(l, |a| kf(a.key, f)),
+                    3 => x.sort_unstable_by_row(l, |a, b| kf(a.key(), f).cmp(&kf(b.key(), f))),
+                    4 => x.sort_unstable_by_row_key(l, |a| kf(a.key(), f)),
                     5 => x.sort_unstable_row_ord::<()>(l),
-                    6 => x.sort_by_col(l, |a, b| kf(a.key, f).cmp(&kf(b.key, f))),
-                    7 => x.sort_by_col_key(l, |a| kf(a.key, f)),
+                    6 => x.sort_by_col(l, |a, b| kf(a.key(), f).cmp(&kf(b.key(), f))),
+                    7 => x.sort_by_col_key(l, |a| kf(a.key(), f)),
                     8 => x.sort_col_ord::<()>(l),
-                    9 => x.sort_unstable_by_col(l, |a, b| kf(a.key, f).cmp(&kf(b.key, f))),
-                    _ => x.sort_unstable_by_col_key(l, |a| kf(a.key, f)),
+                    9 => x.sort_unstable_by_col(l, |a, b| kf(a.key(), f).cmp(&kf(b.key(), f))),
+                    _ => x.sort_unstable_by_col_key(l, |a| kf(a.key(), f)),
                 }
             }
             GOp::IdxWrite(cx, ry, via_row) => {
                 if *via_row {
-                    x[us(*ry)][us(*cx)] = kc(fresh(0, seed));
+                    x[us(*ry)][us(*cx)] = K::make(fresh(0, seed));
                 } else {
-                    x[(us(*cx), us(*ry))] = kc(fresh(0, seed));
+                    x[(us(*cx), us(*ry))] = K::make(fresh(0, seed));
                 }
             }
             GOp::RowsMutWrite { rev, step, skip } => {
                 let mut i = 0;
-                let mut w = |row: &mut [Kc]| {
+                let mut w = |row: &mut [K]| {
                     for v in row.iter_mut() {
-                        *v = kc(fresh(i, seed));
+                        *v = K::make(fresh(i, seed));
                         i += 1;
                     }
                 };
@@ -500,8 +512,8 @@ fn apply<X: TooDeeOpsMut<Kc> + CopyOps<Kc>>(x: &mut X, op: &GOp, seed: u32) -> R
             GOp::ColMutWrite { c: cx, rev, step, skip } => {
                 let mut i = 0;
                 let st = (*step).max(1) as usize;
-                let mut w = |v: &mut Kc| {
-                    *v = kc(fresh(i, seed));
+                let mut w = |v: &mut K| {
+                    *v = K::make(fresh(i, seed));
                     i += 1;
                 };
                 if *rev {
@@ -513,8 +525,8 @@ fn apply<X: TooDeeOpsMut<Kc> + CopyOps<Kc>>(x: &mut X, op: &GOp, seed: u32) -> R
             GOp::CellsMutWrite { rev, step, skip } => {
                 let mut i = 0;
                 let st = (*step).max(1) as usize;
-                let mut w = |v: &mut Kc| {
-                    *v = kc(fresh(i, seed));
+                let mut w = |v: &mut K| {
+                    *v = K::make(fresh(i, seed));
                     i += 1;
                 };
                 if *rev {
@@ -566,9 +578,9 @@ macro_rules! with_recv {
     };
 }
 
-pub fn build_parent(k: &GridCase, lay: &Layout) -> TooDee<Kc> {
+pub fn build_parent<K: Cell>(k: &GridCase, lay: &Layout) -> TooDee<K> {
     let n = lay.pc * lay.pr;
-    let mut v: Vec<Kc> = (0..n).map(|i| Kc { key: key_of(k.keyseed, i, k.alphabet), id: i as u16 }).collect();
+    let mut v: Vec<K> = (0..n).map(|i| K::make(((key_of(k.keyseed, i, k.alphabet) as u64) << 16) | (i as u64 & 0xffff))).collect();
     // keys of the sort line
     if let GOp::Sort { form, line, .. } = &k.op {
         if !k.line_keys.is_empty() {
@@ -576,11 +588,11 @@ pub fn build_parent(k: &GridCase, lay: &Layout) -> TooDee<Kc> {
             let l = us(*line);
             if by_row && l < lay.r {
                 for x in 0..lay.c {
-                    v[(lay.o.1 + l) * lay.pc + lay.o.0 + x].key = k.line_keys[x % k.line_keys.len()] as u16;
+                    v[(lay.o.1 + l) * lay.pc + lay.o.0 + x].set_key(k.line_keys[x % k.line_keys.len()] as u16);
                 }
             } else if !by_row && l < lay.c {
                 for y in 0..lay.r {
-                    v[(lay.o.1 + y) * lay.pc + lay.o.0 + l].key = k.line_keys[y % k.line_keys.len()] as u16;
+                    v[(lay.o.1 + y) * lay.pc + lay.o.0 + l].set_key(k.line_keys[y % k.line_keys.len()] as u16);
                 }
             }
         }
@@ -588,8 +600,8 @@ pub fn build_parent(k: &GridCase, lay: &Layout) -> TooDee<Kc> {
     TooDee::from_vec(lay.pc, lay.pr, v)
 }
 
-fn parent_model(t: &TooDee<Kc>) -> Model {
-    let flat: Vec<u64> = t.data().iter().map(|k| k.raw() as u64).collect();
+fn parent_model<K: Cell>(t: &TooDee<K>) -> Model {
+    let flat: Vec<u64> = t.data().iter().map(|k| k.raw()).collect();
     Model::from_flat(t.num_cols(), t.num_rows(), &flat)
 }
 
@@ -631,8 +643,34 @@ pub struct Outcome {
 }
 
 pub fn run(k: &GridCase, focus: Focus, ctx: &mut Ctx) -> Result<Outcome, Failure> {
+    ctx.class(match k.cell {
+        CellKind::Kc => Kc::NAME,
+        CellKind::K1 => K1::NAME,
+        CellKind::K20 => K20::NAME,
+        CellKind::Fat => Fat::NAME,
+    });
+    match k.cell {
+        CellKind::Kc => run_t::<Kc>(k, focus, ctx),
+        CellKind::K1 => run_t::<K1>(k, focus, ctx),
+        CellKind::K20 => run_t::<K20>(k, focus, ctx),
+        CellKind::Fat => run_t::<Fat>(k, focus, ctx),
+    }
+}
+
+/// the model under the projection of the cell type (what `make(x).raw()` keeps of `x`)
+fn project<K: Cell>(m: &Model) -> Model {
+    let mut p = m.clone();
+    for row in p.rows.iter_mut() {
+        for v in row.iter_mut() {
+            *v = K::make(*v).raw();
+        }
+    }
+    p
+}
+
+fn run_t<K: Cell>(k: &GridCase, focus: Focus, ctx: &mut Ctx) -> Result<Outcome, Failure> {
     let lay = layout(k.cols as usize, k.rows as usize, &k.recv);
-    let mut parent = build_parent(k, &lay);
+    let mut parent = build_parent::<K>(k, &lay);
     let pm = parent_model(&parent);
     let (c, r) = (lay.c, lay.r);
     let w = if c > 0 { pm.window(lay.o, (lay.o.0 + c, lay.o.1 + r)) } else { Model::new() };
@@ -643,7 +681,7 @@ pub fn run(k: &GridCase, focus: Focus, ctx: &mut Ctx) -> Result<Outcome, Failure
         if x.num_cols() != c || x.num_rows() != r {
             Err(format!("receiver has size ({},{}) instead of ({},{})", x.num_cols(), x.num_rows(), c, r))
         } else {
-            apply(x, &k.op, seed)
+            apply::<K, _>(x, &k.op, seed)
         }
     });
     let after = parent_model(&parent);
@@ -669,6 +707,7 @@ pub fn run(k: &GridCase, focus: Focus, ctx: &mut Ctx) -> Result<Outcome, Failure
             return Ok(out);
         }
         Expect::Exact(wm) => {
+            let wm = project::<K>(&wm);
             match &res {
                 Err(msg) => fail!(format!("{}/valid-panicked", name), "{}: valid call panicked: {}", desc(), msg),
                 Ok(Some(note)) => fail!(format!("{}/wrong-result", name), "{}: {}", desc(), note),
@@ -744,9 +783,9 @@ pub fn run(k: &GridCase, focus: Focus, ctx: &mut Ctx) -> Result<Outcome, Failure
     }
     // C04 differential: the same operation on an owned copy of the window
     if focus == Focus::ViewIsolation && k.recv.is_view() {
-        let flat: Vec<Kc> = w.flat().into_iter().map(kc).collect();
+        let flat: Vec<K> = w.flat().into_iter().map(K::make).collect();
         let mut owned = TooDee::from_vec(c, r, flat);
-        let r2 = apply(&mut owned, &k.op, seed);
+        let r2 = apply::<K, _>(&mut owned, &k.op, seed);
         ensure!(matches!(r2, Ok(None)), "differential/owned-copy-failed", "{}: the same operation on an owned copy failed: {:?}", desc(), r2);
         let om = parent_model(&owned);
         let got_w = if c > 0 { after.window(lay.o, (lay.o.0 + c, lay.o.1 + r)) } else { Model::new() };
@@ -864,6 +903,110 @@ pub fn bound(dim: u8) -> impl Strategy<Value = u64> {
     ]
 }
 
+/// Values whose product with `stride` (or stride +- 1) wraps around 2^64 back into a small
+/// number: an index check that is folded into the multiplication lets exactly these through.
+pub fn wrap_values(stride: usize) -> Vec<u64> {
+    let mut v = Vec::new();
+    for s in [stride.max(1) as u128, stride as u128 + 1] {
+        let q = ((1u128 << 64) + s - 1) / s;
+        for (j, d) in [(1u128, 0u128), (1, 1), (2, 0), (1, 2)] {
+            v.push(((q * j + d) & u64::MAX as u128) as u64);
+        }
+        v.push((u64::MAX as u128 / s + 1) as u64);
+    }
+    v.sort();
+    v.dedup();
+    v
+}
+
+/// Replace one index argument of the operation by a wrap-provoking value for the receiver's stride.
+pub fn wrapify(mut k: GridCase, sel: u16) -> GridCase {
+    let lay = layout(k.cols as usize, k.rows as usize, &k.recv);
+    let vals = wrap_values(lay.pc);
+    let v = vals[(sel as usize >> 4) % vals.len()];
+    let which = sel as usize & 15;
+    match &mut k.op {
+        GOp::Swap(a) => a[which % 4] = v,
+        GOp::SwapRows(a, b) | GOp::SwapCols(a, b) | GOp::RowPairMut(a, b) | GOp::Translate(a, b) => {
+            if which % 2 == 0 { *a = v } else { *b = v }
+        }
+        GOp::IdxWrite(a, b, _) => {
+            if which % 3 == 0 { *a = v } else { *b = v }
+        }
+        GOp::ColMutWrite { c, .. } => *c = v,
+        GOp::Sort { line, .. } => *line = v,
+        GOp::CopyWithin { src, dest } => {
+            if which % 6 < 4 { src[which % 6] = v } else { dest[which % 6 - 4] = v }
+        }
+        _ => {}
+    }
+    k
+}
+
+/// 4% of the cases get one wrap-provoking index
+pub fn with_wraps(s: BoxedStrategy<GridCase>) -> BoxedStrategy<GridCase> {
+    with_cells((s, any::<u16>(), prop::bool::weighted(0.04)).prop_map(|(k, sel, w)| if w { wrapify(k, sel) } else { k }).boxed())
+}
+
+/// every index-taking operation with each wrap-provoking value in each argument position
+pub fn enum_wraps(cols: u8, rows: u8, recv: Recv, keep: &dyn Fn(&GOp) -> bool, emit: &mut dyn FnMut(GridCase)) {
+    let lay = layout(cols as usize, rows as usize, &recv);
+    let (c, r) = (lay.c as u64, lay.r as u64);
+    if c == 0 {
+        return;
+    }
+    for v in wrap_values(lay.pc) {
+        let mut ops = vec![
+            GOp::Swap([v, 0, 0, 0]), GOp::Swap([0, v, 0, 0]), GOp::Swap([0, 0, v, r - 1]), GOp::Swap([c - 1, 0, 0, v]),
+            GOp::SwapRows(v, 0), GOp::SwapRows(0, v), GOp::SwapRows(r - 1, v), GOp::SwapCols(v, 0), GOp::SwapCols(c - 1, v),
+            GOp::RowPairMut(v, 0), GOp::RowPairMut(0, v),
+            GOp::IdxWrite(v, 0, false), GOp::IdxWrite(0, v, false), GOp::IdxWrite(c - 1, v, false), GOp::IdxWrite(v, r - 1, true), GOp::IdxWrite(c - 1, v, true),
+            GOp::ColMutWrite { c: v, rev: false, step: 1, skip: 0 },
+            GOp::Translate(v, 0), GOp::Translate(0, v),
+            GOp::CopyWithin { src: [0, 0, 1, 1], dest: [v, 0] }, GOp::CopyWithin { src: [0, 0, 1, 1], dest: [0, v] }, GOp::CopyWithin { src: [0, v, 1, v], dest: [0, 0] }, GOp::CopyWithin { src: [0, 0, 1, v], dest: [0, 0] },
+        ];
+        for form in 0..11u8 {
+            ops.push(GOp::Sort { form, line: v, keyfn: 0 });
+        }
+        for op in ops {
+            if keep(&op) {
+                emit(GridCase { cell: CellKind::Kc, cols, rows, recv, keyseed: 77, alphabet: 3, line_keys: vec![], op });
+            }
+        }
+    }
+}
+
+/// Fat cells are 4800 bytes each: only for small parents.
+fn fat_ok(k: &GridCase) -> bool {
+    let lay = layout(k.cols as usize, k.rows as usize, &k.recv);
+    lay.pc * lay.pr <= 400
+}
+
+/// 12% of the cases run on another cell type: 1 byte, 20 bytes, 4800 bytes
+pub fn with_cells(s: BoxedStrategy<GridCase>) -> BoxedStrategy<GridCase> {
+    (s, prop_oneof![88 => Just(CellKind::Kc), 5 => Just(CellKind::K1), 5 => Just(CellKind::K20), 2 => Just(CellKind::Fat)])
+        .prop_map(|(mut k, cell)| {
+            k.cell = if cell == CellKind::Fat && !fat_ok(&k) { CellKind::K20 } else { cell };
+            k
+        })
+        .boxed()
+}
+
+/// Wraps an enumeration sink: every 5th case is repeated with the other cell types in turn.
+pub fn emit_cells<'a>(emit: &'a mut dyn FnMut(GridCase)) -> impl FnMut(GridCase) + 'a {
+    let mut n = 0u64;
+    move |k: GridCase| {
+        n += 1;
+        if n % 5 == 0 {
+            let cell = [CellKind::K1, CellKind::K20, CellKind::Fat][(n / 5 % 3) as usize];
+            let mut k2 = k.clone();
+            k2.cell = if cell == CellKind::Fat && !fat_ok(&k2) { CellKind::K20 } else { cell };
+            emit(k2);
+        }
+        emit(k);
+    }
+}
+
 /// Bound a case decoded from raw fuzzer bytes.
 pub fn sanitize(k: &mut GridCase, max: u8, views_only: bool) -> bool {
     k.cols %= max + 1;
@@ -882,11 +1025,14 @@ pub fn sanitize(k: &mut GridCase, max: u8, views_only: bool) -> bool {
     if let GOp::Sort { form, .. } = &mut k.op {
         *form %= 11;
     }
+    if k.cell == CellKind::Fat && !fat_ok(k) {
+        k.cell = CellKind::K20;
+    }
     true
 }
 
 fn case(cols: u8, rows: u8, recv: Recv, keyseed: u32, op: GOp) -> GridCase {
-    GridCase { cols, rows, recv, keyseed, alphabet: 4, line_keys: vec![], op }
+    GridCase { cell: CellKind::Kc, cols, rows, recv, keyseed, alphabet: 4, line_keys: vec![], op }
 }
 
 fn enum_recvs() -> Vec<Recv> {
@@ -907,6 +1053,8 @@ impl Prop for C13 {
         "shapes (0..=5)^2, index values {0..dim+1, usize::MAX}, receivers: owned, 3 window embeddings (one nested), Thin over owned, Thin over window".into()
     }
     fn enumerate(_tier: Tier, emit: &mut dyn FnMut(GridCase)) {
+        let mut emit_inner = emit_cells(emit);
+        let emit: &mut dyn FnMut(GridCase) = &mut emit_inner;
         for recv in enum_recvs() {
             for cols in 0u8..=5 {
                 for rows in 0u8..=5 {
@@ -938,12 +1086,13 @@ impl Prop for C13 {
                         }
                     }
                     emit(case(cols, rows, recv, 5, GOp::Fill(3)));
+                    enum_wraps(cols, rows, recv, &|op| matches!(op, GOp::Swap(_) | GOp::SwapRows(..) | GOp::SwapCols(..) | GOp::RowPairMut(..)), emit);
                 }
             }
         }
     }
     fn strategy(_tier: Tier) -> BoxedStrategy<GridCase> {
-        (big_dim(24), big_dim(24), recv_any(), any::<u32>())
+        let s = (big_dim(24), big_dim(24), recv_any(), any::<u32>())
             .prop_flat_map(|(cols, rows, recv, seed)| {
                 let (cols, rows) = if cols == 0 || rows == 0 { (0, 0) } else { (cols, rows) };
                 let op = prop_oneof![
@@ -955,7 +1104,8 @@ impl Prop for C13 {
                 ];
                 op.prop_map(move |op| case(cols, rows, recv, seed, op))
             })
-            .boxed()
+            .boxed();
+        with_wraps(s)
     }
     fn fuzz_sanitize(k: &mut GridCase) -> bool {
         matches!(k.op, GOp::Swap(_) | GOp::SwapRows(..) | GOp::SwapCols(..) | GOp::RowPairMut(..) | GOp::Fill(_)) && sanitize(k, 12, false)
@@ -1013,6 +1163,8 @@ impl Prop for C14 {
         format!("copy_within: shapes (0..={n})^2, all (x0,y0,x1,y1) in {{0..dim+1}}^4, all dest in {{0..dim+1}}^2, receivers owned / interior window / Thin; copy_from_*: shapes (0..=4)^2 x 6 receivers x 5 source kinds x size deltas", n = if t == Tier::Quick { 4 } else { 5 })
     }
     fn enumerate(tier: Tier, emit: &mut dyn FnMut(GridCase)) {
+        let mut emit_inner = emit_cells(emit);
+        let emit: &mut dyn FnMut(GridCase) = &mut emit_inner;
         let n = if tier == Tier::Quick { 4u8 } else { 5u8 };
         for recv in [Recv::owned(), Recv::view([1, 1, 2, 1]), Recv::thin()] {
             for cols in 0..=n {
@@ -1043,6 +1195,7 @@ impl Prop for C14 {
                         emit(case(cols, rows, recv, 7, GOp::CopyWithin { src: [h, 0, h, r], dest: [0, 0] }));
                         emit(case(cols, rows, recv, 7, GOp::CopyWithin { src: [0, h, c, h], dest: [0, 0] }));
                     }
+                    enum_wraps(cols, rows, recv, &|op| matches!(op, GOp::CopyWithin { .. }), emit);
                 }
             }
         }
@@ -1070,7 +1223,7 @@ impl Prop for C14 {
         }
     }
     fn strategy(_tier: Tier) -> BoxedStrategy<GridCase> {
-        (big_dim(16), big_dim(16), recv_any(), any::<u32>())
+        let s = (big_dim(16), big_dim(16), recv_any(), any::<u32>())
             .prop_flat_map(|(cols, rows, recv, seed)| {
                 let (cols, rows) = if !recv.is_view() && (cols == 0 || rows == 0) { (0, 0) } else { (cols, rows) };
                 let src_kind = prop_oneof![Just(SrcKind::Owned), Just(SrcKind::View), Just(SrcKind::StridedView), Just(SrcKind::ViewMut)];
@@ -1085,7 +1238,8 @@ impl Prop for C14 {
                 ];
                 op.prop_map(move |op| case(cols, rows, recv, seed, op))
             })
-            .boxed()
+            .boxed();
+        with_wraps(s)
     }
     fn fuzz_sanitize(k: &mut GridCase) -> bool {
         matches!(k.op, GOp::CopyFromSlice { .. } | GOp::CopyFromToodee { .. } | GOp::CopyWithin { .. }) && sanitize(k, 9, false)
@@ -1166,6 +1320,8 @@ impl Prop for C15 {
         format!("shapes (0..={n})^2, mids 0..=dim+1 and usize::MAX, 4 receivers", n = if t == Tier::Quick { 8 } else { 12 })
     }
     fn enumerate(tier: Tier, emit: &mut dyn FnMut(GridCase)) {
+        let mut emit_inner = emit_cells(emit);
+        let emit: &mut dyn FnMut(GridCase) = &mut emit_inner;
         let n = if tier == Tier::Quick { 8u8 } else { 12u8 };
         for recv in [Recv::owned(), Recv::view([1, 1, 1, 1]), Recv::thin(), Recv::nested([0, 1, 2, 0], [1, 0, 0, 1])] {
             for cols in 0..=n {
@@ -1180,12 +1336,15 @@ impl Prop for C15 {
                     }
                     emit(case(cols, rows, recv, 22, GOp::FlipRows));
                     emit(case(cols, rows, recv, 23, GOp::FlipCols));
+                    if cols <= 4 && rows <= 4 {
+                        enum_wraps(cols, rows, recv, &|op| matches!(op, GOp::Translate(..)), emit);
+                    }
                 }
             }
         }
     }
     fn strategy(_tier: Tier) -> BoxedStrategy<GridCase> {
-        (big_dim(48), big_dim(48), recv_any(), any::<u32>())
+        let s = (big_dim(48), big_dim(48), recv_any(), any::<u32>())
             .prop_flat_map(|(cols, rows, recv, seed)| {
                 let (cols, rows) = if cols == 0 || rows == 0 { (0, 0) } else { (cols, rows) };
                 let op = prop_oneof![
@@ -1195,7 +1354,8 @@ impl Prop for C15 {
                 ];
                 op.prop_map(move |op| case(cols, rows, recv, seed, op))
             })
-            .boxed()
+            .boxed();
+        with_wraps(s)
     }
     fn fuzz_sanitize(k: &mut GridCase) -> bool {
         matches!(k.op, GOp::Translate(..) | GOp::FlipRows | GOp::FlipCols) && sanitize(k, 24, false)
@@ -1277,7 +1437,7 @@ fn sort_enumerate(by_row: bool, tier: Tier, emit: &mut dyn FnMut(GridCase)) {
                             if keyfn > 0 && other == 1 {
                                 continue;
                             }
-                            emit(GridCase { cols, rows, recv, keyseed: code as u32, alphabet: 3, line_keys: keys.clone(), op: GOp::Sort { form, line, keyfn } });
+                            emit(GridCase { cell: CellKind::Kc, cols, rows, recv, keyseed: code as u32, alphabet: 3, line_keys: keys.clone(), op: GOp::Sort { form, line, keyfn } });
                         }
                     }
                 }
@@ -1292,9 +1452,10 @@ fn sort_enumerate(by_row: bool, tier: Tier, emit: &mut dyn FnMut(GridCase)) {
                 let dim = if by_row { rows } else { cols } as u64;
                 for fi in 0..nforms {
                     for line in [dim, dim + 1, u64::MAX] {
-                        emit(GridCase { cols, rows, recv, keyseed: 5, alphabet: 3, line_keys: vec![], op: GOp::Sort { form: forms[fi], line, keyfn: 0 } });
+                        emit(GridCase { cell: CellKind::Kc, cols, rows, recv, keyseed: 5, alphabet: 3, line_keys: vec![], op: GOp::Sort { form: forms[fi], line, keyfn: 0 } });
                     }
                 }
+                enum_wraps(cols, rows, recv, &|op| matches!(op, GOp::Sort { form, .. } if (*form < 6) == by_row), emit);
             }
         }
     }
@@ -1309,7 +1470,7 @@ fn sort_strategy(by_row: bool) -> BoxedStrategy<GridCase> {
         3 => (2u8..=20, 1u8..=8),
         1 => (1u8..=2, 1u8..=3),
     ];
-    (shape, recv_any(), any::<u32>(), 2u8..=4, 0u8..6, 0u8..3, any::<u16>(), prop::bool::weighted(0.06), 0u8..14)
+    let s = (shape, recv_any(), any::<u32>(), 2u8..=4, 0u8..6, 0u8..3, any::<u16>(), prop::bool::weighted(0.06), 0u8..14)
         .prop_map(move |((len, other), recv, keyseed, alphabet, f, keyfn, lfrac, bad, pattern)| {
             let (cols, rows) = if by_row { (len, other) } else { (other, len) };
             let form = if by_row { f } else { 6 + f % 5 };
@@ -1330,9 +1491,10 @@ fn sort_strategy(by_row: bool) -> BoxedStrategy<GridCase> {
                 6 => (0..n).map(|i| if i == 0 { (a - 1) as u8 } else { asc(i) }).collect(),
                 _ => vec![],
             };
-            GridCase { cols, rows, recv, keyseed, alphabet, line_keys, op: GOp::Sort { form, line, keyfn } }
+            GridCase { cell: CellKind::Kc, cols, rows, recv, keyseed, alphabet, line_keys, op: GOp::Sort { form, line, keyfn } }
         })
-        .boxed()
+        .boxed();
+    with_wraps(s)
 }
 
 /// The same sort on an array of a zero-sized element type: only panic / no panic and the
@@ -1407,6 +1569,8 @@ impl Prop for C16 {
         format!("all key rows of length 1..={} over {{0,1,2}}, heights {{1,3}}, 6 variants x 3 key functions, receivers owned / window / Thin; all out-of-range rows for shapes (0..=3)^2", if t == Tier::Quick { 5 } else { 6 })
     }
     fn enumerate(tier: Tier, emit: &mut dyn FnMut(GridCase)) {
+        let mut emit_inner = emit_cells(emit);
+        let emit: &mut dyn FnMut(GridCase) = &mut emit_inner;
         sort_enumerate(true, tier, emit)
     }
     fn strategy(_t: Tier) -> BoxedStrategy<GridCase> {
@@ -1443,6 +1607,8 @@ impl Prop for C17 {
         format!("all key columns of length 1..={} over {{0,1,2}}, widths {{1,3}}, 5 variants x 3 key functions, receivers owned / window / Thin; all out-of-range columns for shapes (0..=3)^2", if t == Tier::Quick { 5 } else { 6 })
     }
     fn enumerate(tier: Tier, emit: &mut dyn FnMut(GridCase)) {
+        let mut emit_inner = emit_cells(emit);
+        let emit: &mut dyn FnMut(GridCase) = &mut emit_inner;
         sort_enumerate(false, tier, emit)
     }
     fn strategy(_t: Tier) -> BoxedStrategy<GridCase> {
@@ -1518,7 +1684,15 @@ impl Prop for C04 {
         "exhaustive part: shapes (1..=4)^2 x 7 window embeddings x a fixed list of 40 operations".into()
     }
     fn enumerate(_tier: Tier, emit: &mut dyn FnMut(GridCase)) {
+        let mut emit_inner = emit_cells(emit);
+        let emit: &mut dyn FnMut(GridCase) = &mut emit_inner;
         let recvs = [Recv::view([1, 1, 1, 1]), Recv::view([0, 0, 2, 0]), Recv::view([2, 1, 0, 0]), Recv::thin_view([1, 2, 1, 0]), Recv::nested([1, 0, 1, 1], [0, 1, 1, 0]), Recv::slice_mut(2), Recv::nested([1, 1, 1, 1], [0, 1, 0, 1])];
+        // index arguments whose product with the stride wraps (only "outside unchanged" is judged)
+        for recv in recvs {
+            for (cols, rows) in [(1u8, 1u8), (2, 2), (3, 2), (2, 4), (4, 3)] {
+                enum_wraps(cols, rows, recv, &|_| true, emit);
+            }
+        }
         for recv in recvs {
             for cols in 1u8..=4 {
                 for rows in 1u8..=4 {
@@ -1547,14 +1721,14 @@ impl Prop for C04 {
                         ops.push(GOp::Sort { form, line: 0, keyfn: 1 });
                     }
                     for op in ops {
-                        emit(GridCase { cols, rows, recv, keyseed: (cols as u32) * 16 + rows as u32, alphabet: 3, line_keys: vec![], op });
+                        emit(GridCase { cell: CellKind::Kc, cols, rows, recv, keyseed: (cols as u32) * 16 + rows as u32, alphabet: 3, line_keys: vec![], op });
                     }
                 }
             }
         }
     }
     fn strategy(_tier: Tier) -> BoxedStrategy<GridCase> {
-        (big_dim(10), big_dim(10), recv_view(), any::<u32>(), 2u8..=4)
+        let s = (big_dim(10), big_dim(10), recv_view(), any::<u32>(), 2u8..=4)
             .prop_flat_map(|(cols, rows, recv, seed, alphabet)| {
                 let (ec, er) = (if rows == 0 { 0 } else { cols }, if cols == 0 { 0 } else { rows });
                 // mostly valid arguments (the property's quantifier); some invalid ones, for
@@ -1570,9 +1744,10 @@ impl Prop for C04 {
                     (idx(ec), idx(er), any::<bool>()).prop_map(|(a, b, via)| GOp::IdxWrite(a, b, via)),
                     (idx(ec), any::<bool>(), 1u8..3, 0u8..3).prop_map(|(cc, rev, step, skip)| GOp::ColMutWrite { c: cc, rev, step, skip }),
                 ];
-                prop_oneof![9 => valid_op(ec, er), 1 => maybe_invalid.boxed()].prop_map(move |op| GridCase { cols, rows, recv, keyseed: seed, alphabet, line_keys: vec![], op })
+                prop_oneof![9 => valid_op(ec, er), 1 => maybe_invalid.boxed()].prop_map(move |op| GridCase { cell: CellKind::Kc, cols, rows, recv, keyseed: seed, alphabet, line_keys: vec![], op })
             })
-            .boxed()
+            .boxed();
+        with_wraps(s)
     }
     fn fuzz_sanitize(k: &mut GridCase) -> bool {
         sanitize(k, 10, true)
